@@ -558,6 +558,43 @@ class IntrGen:
             core = [["if", "true", core, None]]
         return core
 
+    def stopper(self, partials: dict[str, list[Any]]) -> tuple[list[Any], int]:
+        """`extends` sitting inside a for / tablerow / with / capture / if / case of the
+        partial: after the parent template has rendered, StopRender travels out through
+        those frames and is absorbed where the partial's rendering ends.  -> (statements,
+        product of the loop lengths the extends sits in times the loops of the parent)."""
+        r = self.r
+        blen = r.randint(0, 3)
+        default: list[Any] = [self.t()]
+        if blen:
+            default.append(["for", "bj", f"(1..{blen})", "", [self.mark()], None])
+        partials["sbase"] = [self.t(), ["blk", "sb", default], self.t()]
+        core: list[Any] = [["ext", "sbase"]]
+        if r.random() < 0.4:
+            core.append(["blk", "sb", [self.t(), ["o", "block.super"]] if r.random() < 0.5 else [self.t()]])
+        prod = 1
+        for _ in range(r.randint(1, 3)):
+            w = r.choice(["for", "for", "tr", "with", "cap", "if", "case"])
+            if w == "for":
+                n = r.randint(2, 4)
+                core = [["for", f"e{prod}", f"(1..{n})", "", [self.mark(), *core], None]]
+                prod *= n
+            elif w == "tr":
+                if any(st[0] == "tr" for st in core):
+                    continue
+                n = r.randint(2, 3)
+                core = [["tr", f"e{prod}", f"(1..{n})", "", [self.mark(), *core]]]
+                prod *= n
+            elif w == "with":
+                core = [["with", "w", "1", core]]
+            elif w == "cap":
+                core = [["cap", "c8", [self.t(), *core]]]
+            elif w == "if":
+                core = [["if", "true", core, None]]
+            else:
+                core = [["case", "1", core]]
+        return core, prod * max(1, blen)
+
     def small_loop(self, var: str, maxprod: int) -> tuple[list[Any], int]:
         n = self.r.randint(1, max(1, min(4, maxprod)))
         return ["for", var, f"(1..{n})", "", [self.mark(), ["o", var]], None], n
@@ -584,7 +621,12 @@ class IntrGen:
             pbody.append(lp)
             inner_prod = max(inner_prod, k)
         second = r.random() < 0.25
-        if second:
+        stop = r.random() < 0.25
+        if stop:
+            st, k = self.stopper(partials)
+            pbody += st
+            inner_prod = max(inner_prod, k)
+        elif second:
             # the interrupt comes from one level further down
             seq2, n2 = self.seq(2, 3)
             partials["p2"] = [self.mark(), ["o", "u"], *self.interrupt("u", None, n2), self.t()]
